@@ -216,7 +216,39 @@ def run(prog, rep):
         results = []
     else:
         rep.ob("C09.3", fn, "address", False, "expected one recvfrom and one p_socket_address_new_from_native call", fn.loc[0])
-    rep.floor("C09.3", 1)
+    # every buffer the kernel writes a peer / local address into holds any family the socket can have, and the length object
+    # handed along says exactly how large it is (a 16-byte `struct sockaddr` is enough for IPv4 only: an IPv6 address comes back
+    # truncated with the full length, and the constructor then reads past the buffer)
+    ADDR_CALLS = {"recvfrom": (4, 5), "getsockname": (1, 2), "getpeername": (1, 2), "accept": (1, 2)}
+    in6 = u.records.get("sockaddr_in6")
+    need = in6.d.get("size") if in6 is not None else None
+    if need is None:
+        raise AnalysisBroken("struct sockaddr_in6 not visible in psocket.c")
+    nab = 0
+    for rf in u.roots():
+        for (b, i, c) in rf.calls():
+            if c.get("callee") not in ADDR_CALLS:
+                continue
+            ai, li = ADDR_CALLS[c["callee"]]
+            a = strip_casts(c["args"][ai])
+            if a is None or cv(a) == 0 or cv(c["args"][ai]) == 0 or root_var(a) is None:
+                continue            # no address requested
+            nab += 1
+            bv = root_var(a)
+            decl = [n for (b2, i2, n) in rf.nodes(elsewhere=True) if n["k"] == "decl" and n["name"] == bv]
+            bsz = None
+            if decl:
+                t = u.types[decl[0]["t"]]
+                bsz = t.get("w") // 8 if t.get("w") else None
+            lv = root_var(c["args"][li])
+            lens = [cv(n["r"]) for (b2, i2, n) in rf.nodes(elsewhere=True) if n["k"] == "asg" and strip_casts(n["l"]) is not None and strip_casts(n["l"])["k"] == "ref"
+                    and strip_casts(n["l"])["name"] == lv] + [cv(n["init"]) for (b2, i2, n) in rf.nodes(elsewhere=True) if n["k"] == "decl" and n["name"] == lv and n.get("init") is not None]
+            okb = bsz is not None and bsz >= need and bool(lens) and all(x is not None and x <= bsz for x in lens) and any(x is not None and x >= need for x in lens)
+            rep.ob("C09.3", rf, "addrbuf:%s" % c["callee"], okb,
+                   "%s writes the address into %s (%s bytes, length object %s = %s): room for every family" % (c["callee"], bv, bsz, lv, sorted(set(lens))) if okb else
+                   "line %d: %s writes the address into %s, which is %s bytes with the length object set to %s; an IPv6 address needs %d: it comes back truncated "
+                   "while the reported length says %d, and the address constructor reads past the buffer" % (line(c), c["callee"], bv, bsz, sorted(set(str(x) for x in lens)), need, need), c)
+    rep.floor("C09.3", 1 + 4)
 
     # C09.4 SIGPIPE
     sends = [(f, c) for f in u.functions.values() for (b, i, c) in f.calls() if c.get("callee") in ("send", "sendto")]
@@ -336,6 +368,9 @@ SELFTEST = [
     dict(id="send-returns-len", file="src/psocket.c", expect="C09.2",
          old="\t\t\t\t\t     \"Failed to call send() on socket\");\n\n\t\t\treturn -1;\n\t\t}\n\n\t\tbreak;\n\t}\n\n\treturn ret;",
          new="\t\t\t\t\t     \"Failed to call send() on socket\");\n\n\t\t\treturn -1;\n\t\t}\n\n\t\tbreak;\n\t}\n\n\treturn (pssize) buflen;"),
+    dict(id="recvfrom-address-buffer-too-small", expect="C09.3", edits=[
+        dict(file="src/psocket.c", old="\tstruct sockaddr_storage sa;\n\tsocklen_t\t\toptlen;\n\tpssize\t\t\tret;", new="\tstruct sockaddr\t\tsa;\n\tsocklen_t\t\toptlen;\n\tpssize\t\t\tret;"),
+        dict(file="src/psocket.c", old="\t\t\t\t     (struct sockaddr *) &sa,\n\t\t\t\t     &optlen)) < 0) {", new="\t\t\t\t     &sa,\n\t\t\t\t     &optlen)) < 0) {")]),
     dict(id="recvfrom-wrong-len-object", file="src/psocket.c", expect="C09.3",
          old="\t\t*address = p_socket_address_new_from_native (&sa, optlen);", new="\t\t*address = p_socket_address_new_from_native (&sa, sizeof (sa));"),
     dict(id="sigpipe-not-ignored", file="src/psocket.c", expect="C09.4",
